@@ -25,6 +25,9 @@ From MV Require Import Doc.Transforms.
 From MV Require Import Doc.Api.
 From MV Require Import Doc.IdsProofs.
 From MV Require Import Doc.TopProofs.
+From MV Require Import Doc.Total.
+From MV Require Import Doc.PostProofs.
+From MV Require Import Doc.Final.
 Import ListNotations.
 Open Scope N_scope.
 
@@ -248,63 +251,10 @@ Fixpoint refids_in (ids : list str) (n : node) : bool :=
   end.
 Definition refids_ok (doc : node) : bool := refids_in (all_ids doc) doc.
 
-(* the candidate premise of the totality statement: the static grammar, narrowed by what the model leaves out *)
-Definition title_kind_ok (t : tok) : bool :=
-  match kind_of (ty t) with
-  | KInline | KText | KSoftbreak | KHardbreak | KEm | KStrong | KCodeInline | KMathInline | KMathSingle
-  | KHtmlInline => true
-  | _ => false
-  end.
-Fixpoint title_ok (t : tok) : bool :=
-  match t with
-  | Tok _ _ attrs _ _ _ _ _ cs => title_kind_ok t && negb (has_key a_id attrs) && forallb title_ok cs
-  end.
-
-Definition total_kind_ok (B : backend) (C : cfg) (t : tok) : bool :=
-  match kind_of (ty t) with
-  | KBlockquote => negb (has_key a_attribution (attrs t))
-  | KCodeBlock | KFence => code_attrs_static t
-  | KHeading =>
-      match heading_level (tag t) with
-      | Some l => (1 <=? l) && (l <=? 6)
-      | None => false
-      end && forallb title_ok (children t)
-  | KImage => negb (existsb (fun k => has_key k (attrs t)) [a_width; a_height; a_align; a_w; a_h; a_a])
-  | KHtmlBlock | KHtmlInline =>
-      negb (c_html_convert C) && match map_ t with Some _ => true | None => false end
-  | KFootnoteRef | KFootnoteReference | KMathBlockLabel =>
-      match kind_of (ty t) with
-      | KMathBlockLabel => true
-      | _ => has_key a_label (meta t)
-      end
-  | KAmsmath => has_key a_numbered (meta t)
-  | KDl => negb (is_sphinx B && mem_str v_glossary (match attr_get t a_class with
-                                                      | Some c => [c] | None => [] end))
-           && match children t with
-              | c :: _ => match kind_of (ty c) with KDt => true | _ => false end
-              | [] => true
-              end
-           && forallb (fun c => match kind_of (ty c) with KDt | KDd => true | _ => false end) (children t)
-  | KTable =>
-      match children t with
-      | h :: _ => match children h with
-                  | r :: _ => match children r with _ :: _ => true | [] => false end
-                  | [] => false
-                  end
-      | [] => false
-      end
-  | KDt | KDd | KFieldlistName | KFieldlistBody | KThead | KTbody | KTr | KTh | KTd => true
-  | KOther => true
-  | _ => true
-  end.
-
-Fixpoint total_tok (B : backend) (C : cfg) (t : tok) : bool :=
-  match t with
-  | Tok _ _ _ _ _ _ _ _ cs => total_kind_ok B C t && forallb (total_tok B C) cs
-  end.
-
+(* the premise of the totality theorem (Total.render_doc_total) together with the static grammar: on such a forest
+   C02_faithful applies to the document the model renders *)
 Definition static_total (B : backend) (C : cfg) (OR : oracles) (ts : list tok) : bool :=
-  static B C OR ts && forallb top_static ts && forallb (total_tok B C) ts.
+  static B C OR ts && total_forest B C OR ts.
 
 (* (premise of the totality statement, the model renders the forest) *)
 Definition total_check (B : backend) (C : cfg) (OR : oracles) (ts : list tok) : bool * bool :=
@@ -324,3 +274,17 @@ Definition agree_check (CD CS : cfg) (OR : oracles) (ts : list tok) : outcome bo
   | Bad e, _ => Bad e
   | _, Bad e => Bad e
   end.
+
+(* C02_faithful without the premise "the model renders the forest": on the narrowed static grammar the forest is
+   rendered and the document is its faithful image, or an operation of the registry interface failed *)
+Theorem faithful_total : forall (D : str -> str) B C OR ts,
+  O_lexer_concat OR -> O_canon D OR -> O_no_files OR ->
+  static_forest B C OR ts = true -> total_forest B C OR ts = true ->
+  (exists doc ws, render_doc B C OR ts = Good (doc, ws) /\
+                  (has_dropped doc = false -> skel_node D doc = skel_toks D B C OR ts)) \/
+  (exists e, render_doc B C OR ts = Bad e /\ reg_fail C OR e).
+Proof.
+  intros D B C OR ts H1 H2 H3 Hst Ht.
+  destruct (render_doc_total B C OR ts Ht) as [[doc [ws E]]|R]; [left|right; exact R].
+  exists doc, ws. split; [exact E|]. intro Hd. eapply faithful; eauto.
+Qed.
